@@ -2,7 +2,8 @@
 
 A *problem* is a JSON-able dict
 
-  {'C': <tensor case of gens_c11>, 'cscale': 1.0 | 0.00624150913 (GPa-like numbers or eV/A^3-like numbers),
+  {'C': <tensor case of gens_c11> | <near-isotropic case, see neariso_tensors>,
+   'cscale': 1.0 | 0.00624150913 (GPa-like numbers or eV/A^3-like numbers),
    'solver': 'stroh' | 'iso' | 'auto',
    'mn': {'kind': 'default'} | {'kind': 'str', 'm': 'z', 'n': 'x', 'pass': 'ss'|'sv'|'vs'} | {'kind': 'vec', 'rot': [axis, angle]},
    'orient': {'kind': 'none'}
@@ -24,6 +25,7 @@ from hypothesis import strategies as st
 
 from . import gens
 from . import gens_c11 as g11
+from .oracles import elastic as el
 from .oracles import volterra_ref as vr
 
 EV_A3 = 0.00624150913          # 1 GPa in eV/A^3
@@ -63,6 +65,108 @@ _nu = st.one_of(st.integers(1, 4950).map(lambda k: k / 10000.0), st.integers(1, 
 @functools.lru_cache(maxsize=None)
 def iso_tensors():
     return st.tuples(_E, _nu).map(lambda t: {'kind': 'named', 'system': 'isotropic', 'C': {'E': t[0], 'nu': t[1]}})
+
+
+# ----------------------------------------------------------------------------- nearly isotropic media
+# The isotropic class accepts every C with  numpy.allclose(C.Cij, C.normalized_as('isotropic').Cij, atol=0, rtol=1e-4)
+# (IsotropicVolterraDislocation.solve): every entry within a RELATIVE 1e-4 of the corresponding entry of the isotropic tensor
+# built from the Hill bulk and shear moduli of C, entries that vanish for an isotropic medium exactly zero.  The accepted
+# class is therefore: orthotropic sparsity in the given axes (cubic, hexagonal, tetragonal with C16 = 0, orthorhombic in a
+# standard setting or with the axes permuted), each of the nine constants within 1e-4 of the isotropic average.  Such a medium
+# is what fitted / computed elastic constants of an "isotropic" model look like.
+#
+#   {'kind': 'neariso', 'E': .., 'nu': .., 'sys': 'cubic'|'hexagonal'|'tetragonal'|'orthorhombic', 'perm': 0..5 (which
+#    crystal axis is x, y, z), 'd': [9 numbers in [-1,1]: relative deviations of C11 C22 C33 C12 C13 C23 C44 C55 C66, tied
+#    together as the system demands], 'eps': amplitude, 'q': the deviation aimed at in units of the acceptance band}
+#
+# C_IJ = Ciso_IJ (1 + eps d_IJ); eps is fixed IN THE STRATEGY so that iso_deviation(C) (my own reading of the acceptance
+# test) is q 1e-4 to within 1 %:  q log-uniform in [1e-3, 0.9] (anisotropy 1e-7 .. 9e-5), q in {0.9, 0.95, 0.97} (just
+# inside the band), q in {1.05 .. 5} (just outside: the class has to be refused or, if a solver accepts it, solved).
+
+BAND = 1e-4
+NEAR_SYSTEMS = ('cubic', 'hexagonal', 'tetragonal', 'orthorhombic')
+_PERMS = ((0, 1, 2), (1, 2, 0), (2, 0, 1), (0, 2, 1), (2, 1, 0), (1, 0, 2))
+_NINE = ((0, 0), (1, 1), (2, 2), (0, 1), (0, 2), (1, 2), (3, 3), (4, 4), (5, 5))
+
+
+def _tie(sys_, d):
+    """the nine relative deviations with the equalities of the crystal system imposed (unique axis: 3)"""
+    d11, d22, d33, d12, d13, d23, d44, d55, d66 = d
+    if sys_ == 'cubic':
+        return [d11, d11, d11, d12, d12, d12, d44, d44, d44]
+    if sys_ in ('tetragonal', 'hexagonal'):
+        return [d11, d11, d33, d12, d13, d13, d44, d44, d66]
+    return list(d)
+
+
+def neariso_cij(case, eps=None):
+    """(6,6) Voigt stiffness of a near-isotropic case (before cscale)"""
+    mo = el.isotropic_moduli(case['E'], case['nu'])
+    C = el.isotropic_voigt(mo['lambda'], mo['mu'])
+    eps = case['eps'] if eps is None else eps
+    for (i, j), v in zip(_NINE, _tie(case['sys'], case['d'])):
+        C[i, j] = C[j, i] = C[i, j] * (1.0 + eps * v)
+    if case['sys'] == 'hexagonal':
+        C[5, 5] = (C[0, 0] - C[0, 1]) / 2
+    p = _PERMS[case['perm']]
+    # crystal axis k becomes Cartesian axis p[k]: a relabelling of the Voigt indices, exact
+    idx = [int(el.VI[p[i], p[j]]) for (i, j) in el.PAIRS]
+    out = np.empty((6, 6))
+    out[np.ix_(idx, idx)] = C
+    return out
+
+
+def iso_deviation(C6):
+    """my own reading of the isotropic class's acceptance test: (largest |C_IJ - N_IJ| / |N_IJ|, N, K, G) with N the isotropic
+    tensor of the Hill bulk and shear moduli K, G of C; inf when an entry that vanishes in N does not vanish in C.  Both
+    tensors go through the Cij setter, which zeroes entries below 1e-9 of the largest (nu = 0: C12 = K - 2G/3 is rounding
+    residue).  When an entry of N lies within a factor 100 of that floor the outcome hangs on rounding: the deviation
+    returned is then BAND itself (neither acceptance nor refusal can be demanded; callers do not judge such a medium)."""
+    v = el.vrh(C6)
+    K, G = v[('bulk', 'Hill')], v[('shear', 'Hill')]
+    N = el.isotropic_voigt(K - 2 * G / 3, G)
+    C6 = np.array(C6, dtype=float)
+    a = np.abs(N) / np.abs(N).max()
+    if np.any((a > 1e-11) & (a < 1e-7)):
+        return BAND, N, K, G
+    N[a <= 1e-11] = 0.0
+    C6[np.abs(C6) <= 1e-9 * np.abs(C6).max()] = 0.0
+    zero = N == 0.0
+    if np.any(C6[zero] != 0.0):
+        return float('inf'), N, K, G
+    return float((np.abs(C6 - N)[~zero] / np.abs(N)[~zero]).max()), N, K, G
+
+
+def _with_eps(case):
+    """fix the amplitude so that the deviation is q BAND (the deviation is linear in eps up to O(eps^2))"""
+    case = dict(case)
+    eps = 1e-6
+    for _ in range(3):
+        dev = iso_deviation(neariso_cij(case, eps))[0]
+        if not (0.0 < dev < float('inf')):
+            break
+        eps = eps * case['q'] * BAND / dev
+    if not (1e-9 <= eps <= 1e-2):
+        # the pattern d does not take the medium away from isotropy (a uniform scaling, nu = 0 with C12 = 0 exactly, ...):
+        # plain amplitude; the labels are taken from the deviation actually reached
+        eps = case['q'] * BAND
+    case['eps'] = float(eps)
+    return case
+
+
+_qlog = st.floats(-3.0, math.log10(0.9)).map(lambda x: round(10.0 ** x, 6))
+_q = st.one_of(_qlog, _qlog, _qlog, st.sampled_from([0.9, 0.95, 0.97, 0.97, 0.8, 1.05]),
+               st.sampled_from([0.5, 0.93, 0.96, 1.3, 2.0, 5.0]))
+_dev9 = st.lists(st.one_of(gens.nice(-1.0, 1.0, 3), st.sampled_from([1.0, -1.0, 0.0])), min_size=9, max_size=9)
+# nu >= 1e-4 (no exact 0): with C12 = 0 the Hill average has C12 ~ eps E, on the 1e-9 zeroing floor of the Cij setter
+_nu_near = st.one_of(st.integers(1, 4950).map(lambda k: k / 10000.0), st.integers(1, 4950).map(lambda k: k / 10000.0),
+                     st.sampled_from([0.25, 1.0 / 3.0, 0.3, 0.495, 0.0001]))
+
+
+@functools.lru_cache(maxsize=None)
+def neariso_tensors():
+    return st.fixed_dictionaries({'kind': st.just('neariso'), 'E': _E, 'nu': _nu_near, 'sys': st.sampled_from(NEAR_SYSTEMS),
+                                  'perm': st.integers(0, 5), 'd': _dev9, 'q': _q}).map(_with_eps)
 
 
 @functools.lru_cache(maxsize=None)
@@ -164,7 +268,9 @@ def local_points(nmin, nmax):
 @functools.lru_cache(maxsize=None)
 def problems(solver=None, aniso=None):
     """solver: None (mixture), 'stroh', 'iso', 'auto'.  Anisotropic media from gens_c11.tensors (all crystal systems in
-    standard setting, generic SPD, rotated), isotropic ones from iso_tensors."""
+    standard setting, generic SPD, rotated), isotropic ones from iso_tensors, nearly isotropic ones (inside and just outside
+    the isotropic class's acceptance band) from neariso_tensors: 5/12 of the media of the isotropic class, 3/12 of the media
+    handed to the dispatcher."""
     tens = aniso if aniso is not None else g11.tensors(isotropic_too=False)
 
     @st.composite
@@ -174,12 +280,13 @@ def problems(solver=None, aniso=None):
             w = draw(_sel)
             s = 'stroh' if w <= 5 else 'iso' if w <= 8 else 'auto'
         if s == 'iso':
-            C = draw(iso_tensors())
+            C = draw(iso_tensors()) if draw(_sel) <= 6 else draw(neariso_tensors())
         elif s == 'auto':
-            C = draw(iso_tensors()) if draw(_sel) <= 4 else draw(tens)
+            w = draw(_sel)
+            C = draw(iso_tensors()) if w <= 3 else draw(neariso_tensors()) if w <= 6 else draw(tens)
         else:
             C = draw(tens)
-        isotropic = C['kind'] == 'named' and C['system'] == 'isotropic'
+        isotropic = C['kind'] == 'neariso' or (C['kind'] == 'named' and C['system'] == 'isotropic')
         return {'C': C, 'cscale': draw(_cscale), 'solver': s, 'mn': draw(mn_specs()), 'orient': draw(orient_specs()),
                 'bsol': draw(burgers(isotropic)), 'aslist': draw(_bool)}
     return _p()
@@ -188,7 +295,13 @@ def problems(solver=None, aniso=None):
 # ----------------------------------------------------------------------------- case -> numbers (pure numpy)
 
 def stiffness(prob):
+    if prob['C']['kind'] == 'neariso':
+        return neariso_cij(prob['C']) * prob['cscale']
     return g11.cij(prob['C']) * prob['cscale']
+
+
+def is_neariso(prob):
+    return prob['C']['kind'] == 'neariso'
 
 
 def is_isotropic(prob):
@@ -241,6 +354,12 @@ def labels_of(prob):
         labs.add('via_axes')
     if prob['cscale'] != 1.0:
         labs.add('cscaled')
+    if is_neariso(prob):
+        q = iso_deviation(stiffness(prob))[0] / BAND
+        labs |= {'neariso_medium', 'C_kind_neariso', 'neariso_' + prob['C']['sys']}
+        labs.add('neariso_outside' if q > 1.0 else 'neariso_edge' if q >= 0.89 else 'neariso_1e-5..9e-5' if q >= 0.1 else
+                 'neariso_1e-7..1e-5' if q >= 0.99e-3 else 'neariso_below_1e-7')
+        return labs
     labs.add('iso_medium' if is_isotropic(prob) else 'aniso_medium')
     labs |= {('C_' + l) for l in g11.labels_of(prob['C']) if l.startswith(('kind_', 'sys_'))}
     return labs
